@@ -241,6 +241,39 @@ def r3_std(ctx):
                             ctx.violation("C19.R3", f, st, "the proposal scale is written outside _update_std and construction")
 
 
+def r5_temperature_updated_every_iteration(ctx):
+    """'exactly 1 once the annealing iterations are over': the schedule advances by one step per iteration of the algorithm - the update is
+    on every path through an iteration (no `continue` / early exit before it)."""
+    ctx.rule("C19.R5", "the temperature update runs on every path through an iteration", 2)
+    n = 0
+    for f in ctx.ix.iter_funcs():
+        if not f.mod.startswith("leaspy.algo"):
+            continue
+        calls = [c for c in ast.walk(f.node) if isinstance(c, ast.Call) and U(c.func) == "self._update_temperature"]
+        if not calls or f.name == "_update_temperature":
+            continue
+        cfg = CFG(f.node)
+        for c in calls:
+            n += 1
+            cn = cfg.node_containing(c)
+            loops = [l for l in ast.walk(f.node) if isinstance(l, (ast.For, ast.While)) and any(x is c for b in l.body for x in ast.walk(b))]
+            if not loops:
+                # one call per invocation of the function (the caller loops): every normal path of the function passes it
+                ok = cn is not None and cfg.all_paths_pass(cfg.entry, [cn])
+                ctx.check(ok, "C19.R5", f, c, "the update is on every normal path of the per-iteration function", "a path through the per-iteration function returns without updating the temperature: "
+                          "the schedule falls behind the iteration count and the temperature is still above 1 when annealing should be over")
+                continue
+            lp = min(loops, key=lambda l: (l.end_lineno or 0) - l.lineno)  # innermost loop containing the call
+            hn = cfg.node_of(lp)
+            first = cfg.node_of(lp.body[0]) if lp.body else None
+            ok = cn is not None and hn is not None and first is not None and cfg.all_paths_pass(first, [cn], end=hn)
+            ctx.check(ok, "C19.R5", f, c, "every path through the loop body passes the update before the next iteration",
+                      "some path through the iteration (`continue` / branch) reaches the next iteration without updating the temperature: plateau decrements are skipped, so the "
+                      "temperature is still above 1 when the annealing iterations are over")
+    if n == 0:
+        raise AnalysisError("C19.R5", "anchor vanished: calls of self._update_temperature()")
+
+
 def r4_configuration_reaches_object(ctx):
     """'by exactly the configured factor', 'the configured temperature schedule': a constructor parameter that is accepted and then neither
     used nor handed to the base constructor is silently replaced by the base's default."""
@@ -282,6 +315,7 @@ def rules(ctx):
     r2_temperature(ctx)
     r3_std(ctx)
     r4_configuration_reaches_object(ctx)
+    r5_temperature_updated_every_iteration(ctx)
     ctx.assume("acceptation_history_length is a positive integer (documented precondition)")
     ctx.trust("Python int floor-division / modulo semantics")
 
